@@ -151,6 +151,10 @@ def run_case(case):
             size = max(0, nchunks * chunk - rng.choice([0, 1, 17]))
             point = rng.choice(["send", "done"] + ([("data", rng.randint(1, max(1, nchunks)))] if nchunks else []))
             plan.send_fail[b"/fail"] = (point, reason)
+            if (size + len(reason) + nchunks) % 4 == 0:
+                # the device says it twice, or more bytes than the record's length field announces follow it: the first FAIL record is the failure
+                plan.fail_surplus = [wire.sync_fail(b"again: " + reason[:20]), b"\x00tail", wire.sync_fail(b"")][(size + nchunks) % 3]
+                stats["fails_followed_by_more_bytes"] = 1
             plan.hold_fail = rng.random() < 0.3 and not slow_dev
             if slow_send:
                 plan.early_reply = True        # the FAIL may overtake the OKAY of the WRTE that provoked it
